@@ -15,22 +15,33 @@ Open Scope N_scope.
 
 (* the generic statement: for every spec of the proved fragment, every domain value, both byte
    orders, both modes: what was written, followed by [rest], reads back as the value and leaves
-   exactly [rest]; [rest] is arbitrary for self-delimiting specs and empty for window specs *)
+   exactly [rest]; [rest] is arbitrary for self-delimiting specs and empty for window specs.
+   The contexts on the two sides only have to agree on the sibling fields the spec itself refers to
+   (OptionalFlagged); inside a Template that agreement is established by the proof. *)
 Theorem C08_roundtrip : forall e pod s cs cd v b rest,
-  wf s = true -> domb pod s v = true -> ser e s cs v = Some b ->
+  wf s = true -> agree (refs s) cs cd -> domb e pod s cs v = true -> ser e s cs v = Some b ->
   (delimited s = true \/ rest = []) ->
   de e pod s cd (b ++ rest) = Some (v, rest).
 Proof. exact roundtrip. Qed.
 Print Assumptions C08_roundtrip.
 
+(* specs without free context references: arbitrary, unrelated contexts *)
+Theorem C08_roundtrip_closed : forall e pod s cs cd v b rest,
+  wf s = true -> refs s = [] -> domb e pod s cs v = true -> ser e s cs v = Some b ->
+  (delimited s = true \/ rest = []) ->
+  de e pod s cd (b ++ rest) = Some (v, rest).
+Proof. exact rt_closed. Qed.
+Print Assumptions C08_roundtrip_closed.
+
 Theorem C08_rt_delimited : forall e pod s cs cd v b,
-  wf s = true -> delimited s = true -> domb pod s v = true -> ser e s cs v = Some b ->
+  wf s = true -> agree (refs s) cs cd -> delimited s = true -> domb e pod s cs v = true ->
+  ser e s cs v = Some b ->
   forall rest, de e pod s cd (b ++ rest) = Some (v, rest).
 Proof. exact rt_delimited. Qed.
 Print Assumptions C08_rt_delimited.
 
 Theorem C08_rt_window : forall e pod s cs cd v b,
-  wf s = true -> domb pod s v = true -> ser e s cs v = Some b ->
+  wf s = true -> agree (refs s) cs cd -> domb e pod s cs v = true -> ser e s cs v = Some b ->
   de e pod s cd b = Some (v, []).
 Proof. exact rt_window. Qed.
 Print Assumptions C08_rt_window.
@@ -62,8 +73,9 @@ Print Assumptions C08_min_size.
 
 (* composition *)
 Theorem C08_compose_seq : forall e pod s1 s2 c1 c2 d1 d2 v1 v2 b1 b2 rest,
-  wf s1 = true -> delimited s1 = true -> domb pod s1 v1 = true -> ser e s1 c1 v1 = Some b1 ->
-  wf s2 = true -> domb pod s2 v2 = true -> ser e s2 c2 v2 = Some b2 ->
+  wf s1 = true -> agree (refs s1) c1 d1 -> delimited s1 = true -> domb e pod s1 c1 v1 = true ->
+  ser e s1 c1 v1 = Some b1 ->
+  wf s2 = true -> agree (refs s2) c2 d2 -> domb e pod s2 c2 v2 = true -> ser e s2 c2 v2 = Some b2 ->
   (delimited s2 = true \/ rest = []) ->
   de e pod s1 d1 (b1 ++ b2 ++ rest) = Some (v1, b2 ++ rest) /\
   de e pod s2 d2 (b2 ++ rest) = Some (v2, rest).
@@ -71,8 +83,8 @@ Proof. exact compose_seq. Qed.
 Print Assumptions C08_compose_seq.
 
 Theorem C08_compose_tuple : forall e pod s1 s2 c cd v1 v2 b1 b2 rest,
-  wf s1 = true -> delimited s1 = true -> domb pod s1 v1 = true -> ser e s1 [] v1 = Some b1 ->
-  wf s2 = true -> domb pod s2 v2 = true -> ser e s2 [] v2 = Some b2 ->
+  wf s1 = true -> delimited s1 = true -> domb e pod s1 [] v1 = true -> ser e s1 [] v1 = Some b1 ->
+  wf s2 = true -> domb e pod s2 [] v2 = true -> ser e s2 [] v2 = Some b2 ->
   (delimited s2 = true \/ rest = []) ->
   ser e (STuple [s1; s2]) c (VList [v1; v2]) = Some (b1 ++ b2) /\
   de e pod (STuple [s1; s2]) cd ((b1 ++ b2) ++ rest) = Some (VList [v1; v2], rest).
@@ -81,7 +93,7 @@ Print Assumptions C08_compose_tuple.
 
 Theorem C08_compose_collection : forall e pod s cd vs b,
   wf s = true -> delimited s = true -> 0 < min_size s ->
-  forallb (domb pod s) vs = true -> ser_all (ser e s []) vs = Some b ->
+  forallb (domb e pod s []) vs = true -> ser_all (ser e s []) vs = Some b ->
   de e pod (SCollection LGreedy s) cd b = Some (VList vs, []).
 Proof. exact compose_collection. Qed.
 Print Assumptions C08_compose_collection.
@@ -124,8 +136,8 @@ Theorem C08_reject_propagates : forall e c,
   (forall ss vs i s v, nth_error ss i = Some s -> nth_error vs i = Some v -> ser e s [] v = None ->
                        ser e (STuple ss) c (VList vs) = None) /\
   (forall k s vs v, In v vs -> ser e s [] v = None -> ser e (SCollection k s) c (VList vs) = None) /\
-  (forall fs skip kvs f v, In f fs -> lookup (fst f) kvs = Some v -> ser e (snd f) kvs v = None ->
-                           ser e (STemplate fs skip) c (VDict kvs) = None) /\
+  (forall fs skip rc kvs f v, In f fs -> lookup (fst f) kvs = Some v -> ser e (snd f) kvs v = None ->
+                           ser e (STemplate fs skip rc) c (VDict kvs) = None) /\
   (forall s v, v <> VNone -> ser e s c v = None -> ser e (SOptPrefixed s) c v = None) /\
   (forall a s v v', aenc a v = Some v' -> ser e s c v' = None -> ser e (SAdapter a s) c v = None) /\
   (forall k s en ct v, v <> VNone -> ser e s c v = None -> ser e (STypedBytes k s en ct) c v = None).
@@ -144,15 +156,15 @@ Print Assumptions C08_reject_propagates.
    of the child's domain is a value of the domain (and re-encodes to that int) *)
 Theorem C08_enum_domain_complete : forall tbl strict pod (D : value -> bool) z v,
   nodupN (map fst tbl) = true -> D (VInt z) = true ->
-  adec (AEnum tbl strict) pod (VInt z) = Some v ->
-  adomb (AEnum tbl strict) pod D v = true.
+  adec_s (AEnum tbl strict) pod (VInt z) = Some v ->
+  adomb_s (AEnum tbl strict) pod D v = true.
 Proof. exact enum_domain_complete. Qed.
 Print Assumptions C08_enum_domain_complete.
 
 Theorem C08_flag_domain_complete : forall tbl (D : value -> bool) z,
   flags_ok tbl = true -> D (VInt z) = true ->
-  aenc (AFlag tbl) (VList (flags_to_pod tbl z)) = Some (VInt z) /\
-  adomb (AFlag tbl) true D (VList (flags_to_pod tbl z)) = true.
+  aenc_s (AFlag tbl) (VList (flags_to_pod tbl z)) = Some (VInt z) /\
+  adomb_s (AFlag tbl) true D (VList (flags_to_pod tbl z)) = true.
 Proof. exact flag_domain_complete. Qed.
 Print Assumptions C08_flag_domain_complete.
 
@@ -165,7 +177,7 @@ Print Assumptions C08_de_count_spec.
 
 (* a window spec followed by further bytes does not round-trip: [delimited] cannot be dropped *)
 Theorem C08_rt_greedy_refuted : exists e pod s v b rest,
-  wf s = true /\ domb pod s v = true /\ ser e s [] v = Some b /\
+  wf s = true /\ domb e pod s [] v = true /\ ser e s [] v = Some b /\
   de e pod s [] (b ++ rest) <> Some (v, rest).
 Proof.
   exists true, false, SBytesGreedy, (VBytes [1]), [1], [2]. vm_compute.
@@ -210,11 +222,11 @@ Definition ex_spec : spec :=
     [ (0, SPrim (PI (IP true W2)));
       (1, SOptPrefixed (SStr (IP false W1) true));
       (2, SCollection (LPrefixed (IP true W4))
-                      (STuple [SCStr [0] true true; SAdapter (AEnum ex_enum false) (SPrim (PI (IP false W1)))]));
+                      (STuple [SCStr [0] true true; SAdapter (ASimple (AEnum ex_enum false)) (SPrim (PI (IP false W1)))]));
       (3, STypedBytes (TBArray (IP false W2))
                       (STuple [SUUID; SCollection LGreedy (SByteArray (IP false W1))]) true true);
-      (4, SAdapter (AFlag ex_flags) (SPrim (PI (IP false W4))));
-      (5, SBytesGreedy) ] true.
+      (4, SAdapter (ASimple (AFlag ex_flags)) (SPrim (PI (IP false W4))));
+      (5, SBytesGreedy) ] true false.
 
 Definition ex_value_pod : value :=
   VDict
@@ -225,7 +237,7 @@ Definition ex_value_pod : value :=
       (5, VBytes [9; 9]) ].
 
 Example C08_ex_hypotheses :
-  wf ex_spec = true /\ delimited ex_spec = false /\ domb true ex_spec ex_value_pod = true /\
+  wf ex_spec = true /\ delimited ex_spec = false /\ domb false true ex_spec [] ex_value_pod = true /\
   ser false ex_spec [] ex_value_pod =
   Some ([255; 254] ++ [0] ++ [0; 0; 0; 2; 104; 105; 0; 2; 0; 9]
         ++ [0; 20] ++ repeat 7 16 ++ [2; 1; 2; 0] ++ [0; 0; 1; 65] ++ [9; 9]) /\
@@ -236,19 +248,19 @@ Example C08_ex_roundtrip :
   forall b, ser false ex_spec [] ex_value_pod = Some b ->
             de false true ex_spec [] b = Some (ex_value_pod, []).
 Proof.
-  intros b H. apply (C08_rt_window false true ex_spec [] [] ex_value_pod b); [reflexivity|reflexivity|exact H].
+  intros b H. apply (C08_rt_window false true ex_spec [] [] ex_value_pod b); [reflexivity|apply agree_nil|reflexivity|exact H].
 Qed.
 
 Example C08_ex_delimited :
   let s := STuple [SPrim (PI (IP true W8)); SStrFixed 4; SCollection (LFixed 2) (SPrim PF32)] in
   let v := VList [VInt (-9223372036854775808); VStr [206; 169]; VList [VF 1065353216; VF 2147483648]] in
-  wf s = true /\ delimited s = true /\ domb false s v = true /\ calc_size s = None /\
+  wf s = true /\ delimited s = true /\ domb true false s [] v = true /\ calc_size s = None /\
   exists b, ser true s [] v = Some b /\ length b = 20%nat /\
             forall rest, de true false s [] (b ++ rest) = Some (v, rest).
 Proof.
   cbv zeta. repeat split; try reflexivity.
   eexists. split; [vm_compute; reflexivity|]. split; [reflexivity|].
-  intros rest. apply (C08_rt_delimited true false _ [] []); reflexivity.
+  intros rest. apply (C08_rt_delimited true false _ [] []); try reflexivity. apply agree_nil.
 Qed.
 
 Example C08_ex_reject :
@@ -260,7 +272,7 @@ Example C08_ex_reject :
 Proof. vm_compute. repeat split. Qed.
 
 Example C08_ex_size :
-  let s := STemplate [(0, SPrim (PI (IP true W8))); (1, SBytesFixed 4); (2, SAdapter ABool (SPrim (PI (IP false W1)))); (3, SUUID)] false in
+  let s := STemplate [(0, SPrim (PI (IP true W8))); (1, SBytesFixed 4); (2, SAdapter (ASimple ABool) (SPrim (PI (IP false W1)))); (3, SUUID)] false false in
   calc_size s = Some 29 /\
   forall e c v b, ser e s c v = Some b -> N.of_nat (length b) = 29.
 Proof. split; [reflexivity|]. intros e c v b. now apply C08_size_exact. Qed.
@@ -283,18 +295,62 @@ Definition ex_switches_value : value :=
           VList [VInt 9; VList [VNone; VInt 4]] ].
 
 Example C08_ex_switches :
-  wf ex_switches = true /\ domb true ex_switches ex_switches_value = true /\
+  wf ex_switches = true /\ domb true true ex_switches [] ex_switches_value = true /\
   ser true ex_switches [] ex_switches_value =
   Some ([2; 0; 251; 255; 255; 255] ++ [3; 200; 65; 0] ++ [9; 0; 1; 4]) /\
   forall b, ser true ex_switches [] ex_switches_value = Some b ->
             de true true ex_switches [] b = Some (ex_switches_value, []).
 Proof.
   split; [reflexivity|]. split; [reflexivity|]. split; [vm_compute; reflexivity|].
-  intros b H. apply (C08_rt_window true true ex_switches [] [] ex_switches_value b); [reflexivity|reflexivity|exact H].
+  intros b H. apply (C08_rt_window true true ex_switches [] [] ex_switches_value b); [reflexivity|apply agree_nil|reflexivity|exact H].
 Qed.
 
 Example C08_ex_flags_ok : flags_ok ex_flags = true /\ flags_to_pod ex_flags (-2) = [VName 1; VName 2; VInt (-70)].
 Proof. vm_compute. split; reflexivity. Qed.
+
+(* wave 2: OptionalFlagged members keyed by an earlier sibling, BitField, an opaque (quantized) int adapter,
+   TypedBytesTerminated, LengthSwitch with a variable-size catch-all branch *)
+Definition ex_w2 : spec :=
+  STemplate
+    [ (0, SAdapter (ASimple (AFlag ex_flags)) (SPrim (PI (IP false W4))));
+      (1, SOptFlagged 0 (Some ex_flags) 4 (STuple [SPrim PF32; SPrim PF32; SPrim PF32]));
+      (2, SOptFlagged 0 (Some ex_flags) 64
+                      (STypedBytes (TBTerm [0] false) (SCStr [10] false true) false true));
+      (3, SAdapter (ABitField [(0, 2, None); (1, 5, Some (AEnum ex_enum false)); (2, 1, Some ABool)] true)
+                   (SPrim (PI (IP false W1))));
+      (4, SAdapter (ASimple (AOpaqueInt 7)) (SPrim (PI (IP false W2))));
+      (5, STypedBytes (TBArray (IP true W4))
+                      (SLengthSwitch [(Some 0, SNull); (None, SByteArray (IP false W1))]) false true) ] true false.
+
+Definition ex_w2_value : value :=
+  VDict
+    [ (0, VList [VName 1; VInt 256]);
+      (1, VList [VF 1065353216; VF 0; VF 3212836864]);
+      (3, VDict [(0, VInt 3); (1, VName 3); (2, VInt 1)]);
+      (4, VInt 513);
+      (5, VList [VInt 3; VBytes [1; 2]]) ].
+
+Example C08_ex_wave2 :
+  wf ex_w2 = true /\ delimited ex_w2 = true /\ domb true true ex_w2 [] ex_w2_value = true /\
+  ser true ex_w2 [] ex_w2_value =
+  Some ([4; 1; 0; 0] ++ [0; 0; 128; 63; 0; 0; 0; 0; 0; 0; 128; 191] ++ [159] ++ [1; 2] ++ [3; 0; 0; 0; 2; 1; 2]) /\
+  forall b rest, ser true ex_w2 [] ex_w2_value = Some b ->
+                 de true true ex_w2 [] (b ++ rest) = Some (ex_w2_value, rest).
+Proof.
+  split; [reflexivity|]. split; [reflexivity|]. split; [vm_compute; reflexivity|].
+  split; [vm_compute; reflexivity|].
+  intros b rest H.
+  apply (C08_rt_delimited true true ex_w2 [] [] ex_w2_value b); [reflexivity|apply agree_nil|reflexivity|vm_compute; reflexivity|exact H].
+Qed.
+
+(* with the flag set, the flagged member is present: name-value text in a NUL-terminated window *)
+Example C08_ex_wave2_flagged :
+  let v := VDict [ (0, VList [VName 2]); (2, VStr [97; 32; 98]);
+                   (3, VDict [(0, VInt 0); (1, VInt 9); (2, VInt 0)]); (4, VInt 0);
+                   (5, VList [VInt 0; VNone]) ] in
+  domb false true ex_w2 [] v = true /\
+  ser false ex_w2 [] v = Some ([0; 0; 0; 64] ++ [97; 32; 98; 0] ++ [36] ++ [0; 0] ++ [0; 0; 0; 0]).
+Proof. cbv zeta. split; vm_compute; reflexivity. Qed.
 
 Example C08_ex_calc_size_tuple_cstr :
   calc_size (STuple [SPrim (PI (IP false W1)); SCStr [0] true true]) = None.
